@@ -14,9 +14,9 @@ theorem frame_size_exprs_tied :
     SecretConn.totalFrameSizeExpr = Gen.SecretConn.totalFrameSizeExpr ∧
     SecretConn.sealedFrameSizeExpr = Gen.SecretConn.sealedFrameSizeExpr := by decide
 theorem read_named_results_tied : SecretConn.readNamedResults = Gen.SecretConn.readNamedResults := by decide
-/-- the statement that carries F18: in the buffered branch `copy`'s count goes to `n_`, and
-    the branch ends in a bare `return` of the named results — when the code is repaired this
-    obligation breaks and the model (`read`) must be replaced by `readFixed` -/
+/-- the statement that carried F18 (fixed in a002565b): in BOTH branches `copy`'s count is
+    assigned to the named result `n`, which the bare `return`s give back; reverting the repair
+    (`n_ := copy(...)`) breaks this obligation -/
 theorem read_copies_tied : SecretConn.readCopies = Gen.SecretConn.readCopies := by decide
 theorem read_returns_tied : SecretConn.readReturns = Gen.SecretConn.readReturns := by decide
 theorem write_skeleton_tied : SecretConn.writeSkeleton = Gen.SecretConn.writeSkeleton := by rfl
